@@ -987,11 +987,8 @@ Proof.
     + apply (sinv_fields st); [repeat split|exact H].
   - (* ASetConv *) simpl. destruct (tget n (tags st)); [|exact H].
     match goal with |- context[if ?b then _ else _] => destruct b end; [|exact H].
-    match goal with |- context[attach_all ?s ?n ?cs] =>
-      assert (Sinv (fst (attach_all s n cs))) as HA; [|destruct (attach_all s n cs) as [s2 ok]; simpl in HA] end.
-    { apply sinv_attach_all. apply sinv_fold; [|exact H].
-      intros s c Hs. destruct (memN c cs); [exact Hs|apply sinv_detach; exact Hs]. }
-    destruct ok; [apply sinv_start_converter; exact HA|exact HA].
+    apply sinv_start_converter, sinv_attach_all. apply sinv_fold; [|exact H].
+    intros s c Hs. destruct (memN c cs); [exact Hs|apply sinv_detach; exact Hs].
   - (* ABodyImport *) simpl. destruct (jimp st) as [j|] eqn:J; [|exact H].
     destruct (ij_resp j); [exact H|].
     apply sinv_jimp; [|exact H]. intros n0 r0 E. inversion E; subst. exact Hok.
